@@ -216,7 +216,11 @@ func (e *DefaultCompactionExecutor) hasFilesBelow(level int) bool {
 
 // DeleteCompactedFiles removes the input files that were successfully compacted
 func (e *DefaultCompactionExecutor) DeleteCompactedFiles(filePaths []string) error {
-	for _, path := range filePaths {
+	// Delete the files holding the oldest data first (see sortOldestFirst)
+	ordered := append([]string(nil), filePaths...)
+	sortOldestFirst(ordered)
+
+	for _, path := range ordered {
 		verifhook.At("compaction.delete.before_remove")
 		if err := os.Remove(path); err != nil {
 			return fmt.Errorf("failed to delete compacted file %s: %w", path, err)
